@@ -235,7 +235,12 @@ Close Scope N_scope.
               | Vrb2 ws name post dc text | VEnv2 ws bws name oarg text   (verbatim macro / environments)
               | Brk2 ws oc cc body tr | Abs2   (argument position only: a delimited argument, an absent one)
 
-    The side conditions [ok_item2] see the whole FOLLOW STRING of an item. *)
+    The side conditions [ok_item2] see the whole FOLLOW STRING of an item.  In
+    particular a TEXT character of the extended grammar is any character that is not
+    whitespace, not [\ $ % { }] and at which NO specials sequence of the context matches
+    what is written from there on ([char_ok]) — so [a-b], [don't], [Hi!] are text under
+    the default context; the core grammar's [inert] excludes every character that merely
+    starts a specials sequence. *)
 
 (** ** The round trip for the extended grammar *)
 Theorem C02_parse_unparse2_partial : forall cx d,
@@ -580,3 +585,26 @@ Theorem C02_core_grammar_embeds : forall cx d,
   tree_of2 cx (walker_state cx) 0 (up_doc d) = tree_of cx (walker_state cx) 0 d.
 Proof. exact core_embeds. Qed.
 Print Assumptions C02_core_grammar_embeds.
+
+Open Scope N_scope.
+(** text characters that only START a specials sequence are text:
+    [don't a-b! ok?--x- $a-b$ \textbf-] — apostrophe, hyphen, [!], [?] in text (the default
+    context has the specials [''], [--], [---], [!`], [?`]), next to a real [--]; [a--b]
+    written as ONE text run (or as the runs [a-] and [-b]) is rejected and really parses
+    differently *)
+Example C02_text_characters_nonvacuous :
+  let d := {| d_items2 := [Text2 [] [100;111;110;39;116]; Text2 [32] [97;45;98;33]; Text2 [32] [111;107;63];
+                           Spc2 [] [45;45] []; Text2 [] [120;45];
+                           Math2 [32] MDollar [Text2 [] [97;45;98]] [];
+                           Mac2 [32] [116;101;120;116;98;102] [] [Text2 [] [45]]];
+              d_trail2 := [] |} in
+  let bad1 := {| d_items2 := [Text2 [] [97;45;45;98]]; d_trail2 := [] |} in
+  let bad2 := {| d_items2 := [Text2 [] [97;45]; Text2 [] [45;98]]; d_trail2 := [] |} in
+  (ok_doc2 default_ctx d = true /\
+   parse_top (unparse2 d) false default_ctx (walker_state default_ctx) = doc_result2 default_ctx d /\
+   length (unparse2 d) = 33%nat) /\
+  (ok_doc2 default_ctx bad1 = false /\
+   parse_top (unparse2 bad1) false default_ctx (walker_state default_ctx) <> doc_result2 default_ctx bad1) /\
+  (ok_doc2 default_ctx bad2 = false /\
+   parse_top (unparse2 bad2) false default_ctx (walker_state default_ctx) <> doc_result2 default_ctx bad2).
+Proof. vm_compute. repeat split; discriminate. Qed.
